@@ -81,6 +81,16 @@ def one_run(anthem, base, k, n, outcomes, prefix, decomposition):
                 time.sleep(0.003)
             if len(parked) < want:
                 if not parked: break   # anthem ended or stalled without parking all provers
+            if n < k - len(released):
+                # the property does not bound how many provers run at once; an implementation that starts
+                # more than the requested n parks more of them. Let the set settle so that the choice
+                # points do not depend on timing, and explore over whatever is parked.
+                t_set = time.time() + 0.08
+                while time.time() < t_set:
+                    now = sorted(int(p.rsplit(".", 1)[1]) for p in glob.glob(f"{d}/ctl/arrived.*") if int(p.rsplit(".", 1)[1]) not in released)
+                    if len(now) > len(parked):
+                        parked = now; t_set = time.time() + 0.08
+                    time.sleep(0.004)
             if files is None:
                 files = {os.path.basename(p)[:-2]: open(p, "rb").read() for p in sorted(glob.glob(f"{d}/out/*.p"))}
             # identify parked provers by their stdin
